@@ -1899,3 +1899,28 @@ impl TryFrom<u8> for MessageType {
         }
     }
 }
+
+/// Thin public wrappers around crate-private items, used only by the
+/// out-of-tree verification harnesses (feature `verif_hooks`). Add-only.
+#[cfg(feature = "verif_hooks")]
+#[doc(hidden)]
+pub mod verif_hooks {
+    use super::*;
+
+    pub fn payload_as_bytes(payload: &PayloadContent, big_endian: bool) -> Vec<u8> {
+        if big_endian {
+            payload.as_bytes::<BigEndian>()
+        } else {
+            payload.as_bytes::<LittleEndian>()
+        }
+    }
+    pub fn standard_header_length(header_type: u8) -> u16 {
+        calculate_standard_header_length(header_type)
+    }
+    pub fn all_headers_length(header_type: u8) -> u16 {
+        calculate_all_headers_length(header_type)
+    }
+    pub fn u8_to_log_level(v: u8) -> Option<LogLevel> {
+        super::u8_to_log_level(v)
+    }
+}
